@@ -2,6 +2,7 @@ package parser
 
 import (
 	"io"
+	"strings"
 
 	"github.com/freeconf/yang/meta"
 )
@@ -67,6 +68,27 @@ var c02Pairs = []c02Pair{
 	{"grouping used three times, nested",
 		`typedef t { type string { length "2"; } default "xy"; } grouping g { container in { leaf x { type t; } } } container c1 { uses g; } container c2 { uses g; } list l { key "k"; leaf k { type string; } uses g; }`,
 		`container c1 { container in { leaf x { type string { length "2"; } default "xy"; } } } container c2 { container in { leaf x { type string { length "2"; } default "xy"; } } } list l { key "k"; leaf k { type string; } container in { leaf x { type string { length "2"; } default "xy"; } } }`},
+	{"same typedef name in sibling containers",
+		`container c1 { typedef t { type int32 { range "1..5"; } default 1; units "a"; } leaf x { type t; } } container c2 { typedef t { type string { length "2"; } default "zz"; } leaf x { type t; } } container c3 { typedef t { type enumeration { enum e1; enum e2; } } leaf x { type t; } }`,
+		`container c1 { leaf x { type int32 { range "1..5"; } default 1; units "a"; } } container c2 { leaf x { type string { length "2"; } default "zz"; } } container c3 { leaf x { type enumeration { enum e1; enum e2; } } }`},
+	{"same typedef name in two groupings",
+		`grouping g1 { typedef t { type uint8; default 8; } leaf x { type t; } } grouping g2 { typedef t { type boolean; default true; } leaf y { type t; } } container c { uses g1; uses g2; }`,
+		`container c { leaf x { type uint8; default 8; } leaf y { type boolean; default true; } }`},
+	{"same typedef name in list and rpc scopes",
+		`list l { key "k"; typedef t { type int16; units "l"; } leaf k { type t; } } rpc r { input { typedef t { type string; units "r"; } leaf i { type t; } } }`,
+		`list l { key "k"; leaf k { type int16; units "l"; } } rpc r { input { leaf i { type string; units "r"; } } }`},
+	{"local typedef and imported typedef of the same name",
+		`container c { typedef ot { type string; default "local"; } leaf x { type ot; } leaf y { type o:ot; } }`,
+		`container c { leaf x { type string; default "local"; } leaf y { type uint8 { range "1..9"; } default 3; units "ou"; } }`},
+	{"typedef of typedef across scopes",
+		`typedef base { type int32; units "b"; } container c { typedef mid { type base; default 10; } container d { typedef top { type mid { range "20..50"; } } leaf x { type top; } } }`,
+		`container c { container d { leaf x { type int32 { range "20..50"; } units "b"; default 10; } } }`},
+	{"union members through typedefs",
+		`typedef a { type int8 { range "1..2"; } } typedef b { type string { length "3"; } } typedef u { type union { type a; type b; type enumeration { enum z; } } } leaf x { type u; }`,
+		`leaf x { type union { type int8 { range "1..2"; } type string { length "3"; } type enumeration { enum z; } } }`},
+	{"leafref to a typedef'd leaf",
+		`typedef t { type uint32 { range "1..99"; } } container c { leaf k { type t; } } leaf x { type leafref { path "../c/k"; } }`,
+		`container c { leaf k { type uint32 { range "1..99"; } } } leaf x { type leafref { path "../c/k"; } }`},
 	{"grouping with refine default",
 		`typedef t { type int32; default 5; } grouping g { leaf x { type t; } } container c1 { uses g { refine x { default 9; } } } container c2 { uses g; }`,
 		`container c1 { leaf x { type int32; default 9; } } container c2 { leaf x { type int32; default 5; } }`},
@@ -96,6 +118,50 @@ func H_C02_type_equivalence() {
 	vpDumpNoTypeIdent = false
 	vpAssertK("C02-grouping-copies-share-type", pr.name == "grouping used twice" || pr.name == "grouping used three times, nested" || pr.name == "grouping with refine default",
 		da == db, pr.name+": same effective type, default and units as written inline")
+	vpCover("reached")
+}
+
+// identityref whose base lives two imports away: the accepted identities are the same however the modules are cut
+const c02Far = `module far { namespace "f"; prefix f; identity root-id; identity kid { base root-id; } identity grandkid { base kid; } }`
+
+func c02ChainOpener(mid string) func(string, string) (io.Reader, error) {
+	return func(name string, ext string) (io.Reader, error) {
+		switch name {
+		case "far":
+			return &c14Reader{s: c02Far, failAt: -1}, nil
+		case "mid":
+			return &c14Reader{s: mid, failAt: -1}, nil
+		case "ext":
+			return &c14Reader{s: `module ext { namespace "e"; prefix e; import far { prefix f; } identity ext-kid { base f:kid; } }`, failAt: -1}, nil
+		}
+		return nil, nil
+	}
+}
+
+func H_C02_identity_import_chain() {
+	mids := []string{
+		// the intermediate module has no identities of its own
+		`module mid { namespace "m"; prefix md; import far { prefix f; } typedef idt { type identityref { base f:root-id; } } }`,
+		// it has one
+		`module mid { namespace "m"; prefix md; import far { prefix f; } identity mid-kid { base f:root-id; } typedef idt { type identityref { base f:root-id; } } }`,
+		// it reaches far through yet another module without identities in between
+		`module mid { namespace "m"; prefix md; import far { prefix f; } import ext { prefix e; } typedef idt { type identityref { base f:root-id; } } }`,
+	}
+	which := vpChoose(len(mids))
+	a, errA := LoadModuleFromString(c02ChainOpener(mids[which]), `module m { namespace "urn:m"; prefix p; import mid { prefix md; } leaf x { type md:idt; } }`)
+	vpAssert(errA == nil, "chain of three modules loads")
+	x := meta.Find(a, "x").(*meta.Leaf)
+	bases := x.Type().Base()
+	vpAssert(len(bases) == 1 && bases[0].Ident() == "root-id", "identityref base found two imports away")
+	got := vpDerivedClosure(bases[0], 0)
+	want := "grandkid,kid"
+	if which == 1 {
+		want = "grandkid,kid,mid-kid"
+	}
+	if which == 2 {
+		want = "ext-kid,grandkid,kid"
+	}
+	vpAssert(strings.Join(got, ",") == want, "the identityref accepts every identity derived from its base in any loaded module, whichever module imports which")
 	vpCover("reached")
 }
 
